@@ -30,7 +30,7 @@ COMPONENTS = {
     "real": ["eolib.data.EoWriter (sanitisation on)", "eolib.data.EoReader (chunked mode)", "codecs"],
     "stub_or_harness": ["sender/receiver scripts (version-skewed read plans)", "expected-value computation"],
 }
-PROBES = ["break_inside_switch_case", "second_receiver_from_slice_zero", "chunked_section_of_structs_only", "unchunked_overread_inside_chunk", "mode_reassigned_mid_stream", "generated_serializer_session", "generated_deserializer_session", "unsanitised_y_in_header", "overread_spanning_integer", "empty_chunk", "string_only_y_diaeresis", "last_chunk_overread",
+PROBES = ["empty_case_next_to_default", "break_inside_switch_case", "second_receiver_from_slice_zero", "chunked_section_of_structs_only", "unchunked_overread_inside_chunk", "mode_reassigned_mid_stream", "generated_serializer_session", "generated_deserializer_session", "unsanitised_y_in_header", "overread_spanning_integer", "empty_chunk", "string_only_y_diaeresis", "last_chunk_overread",
           "underread_then_surplus", "first_byte_y_diaeresis", "last_byte_y_diaeresis", "one_char_y_diaeresis"]
 FAULT_KINDS = ["under_read", "over_read"]
 
@@ -99,7 +99,7 @@ def generate(streams, tier):
             "h": (pool.get(vr, min_len=2, max_len=2) + "xx")[:2],
             "s1": pool.get(vr), "a": pool.get(vr, min_len=3, max_len=3) if True else "", "b": gen_int_in_range(vr, "short"),
             "s2": pool.get(vr), "k": gen_int_in_range(vr, "three"), "s3": pool.get(vr, allow_tilde=False),
-            "kind": rng.choice([1, 1, 2]), "note": pool.get(vr),
+            "kind": rng.choice([1, 1, 2, 2, 3, 9]), "note": pool.get(vr),
             "skip": [rng.random() < 0.3 for _ in range(7)], "extra": [rng.random() < 0.3 for _ in range(7)],
         }
         plan["generated"]["a"] = (plan["generated"]["a"] + "abc")[:3]
@@ -201,6 +201,12 @@ def c06_tree():
                     <break/>
                     <field name="extra" type="char"/>
                 </case>
+                <case value="2"/>
+                <case default="true">
+                    <field name="fallback" type="string"/>
+                    <break/>
+                    <field name="fb" type="char"/>
+                </case>
             </switch>
             <break/>
             <field name="k" type="three"/>
@@ -267,7 +273,13 @@ def run_generated(plan, env, res, tr, fail):
     inner_cls = getattr(net, g["variant"])
     pkt_cls = srv.TalkTellServerPacket if g["variant"] == "InnerChunked" else srv.TalkReportServerPacket
     kind = g.get("kind", 2)
-    case = getattr(pkt_cls, "KindData1")(note=g.get("note", ""), extra=g["k"] % 253) if kind == 1 else None
+    if kind == 1:
+        case = pkt_cls.KindData1(note=g.get("note", ""), extra=g["k"] % 253)
+    elif kind == 2:
+        case = None                 # an empty case: no data, and NOT the default case's data
+        res.count("probe.empty_case_next_to_default")
+    else:
+        case = pkt_cls.KindDataDefault(fallback=g.get("note", ""), fb=g["k"] % 253)
     import inspect
     extra = {"mark": "\u00ffzz"} if "mark" in inspect.signature(inner_cls.__init__).parameters else {}
     pkt = pkt_cls(h=g["h"], s1=g["s1"], inner=inner_cls(a=g["a"], b=g["b"], **extra), s2=g["s2"], kind=kind, kind_data=case,
@@ -280,8 +292,8 @@ def run_generated(plan, env, res, tr, fail):
     hb = g["h"].encode("cp1252", "replace")
     body = out[len(hb):]
     # the case of kind 1 has a break of its own: its data spans two chunks
-    kchunks = [[("char", kind), ("s", g.get("note", ""))], [("char", g["k"] % 253)]] if kind == 1 else [[("char", kind)]]
-    if kind == 1:
+    kchunks = [[("char", kind), ("s", g.get("note", ""))], [("char", g["k"] % 253)]] if kind != 2 else [[("char", kind)]]
+    if kind != 2:
         res.count("probe.break_inside_switch_case")
     if g["variant"] == "InnerChunked":
         chunks = [[("s", g["s1"])], [("s", g["a"])], [("short", g["b"])], [("f3", "\u00ffes"), ("s", g["s2"])], *kchunks, [("three", g["k"]), ("e", g["s3"])]]
